@@ -44,13 +44,13 @@ func (*C12) Plan(tier string) orch.Plan {
 }
 
 type c12Cell struct {
-	entry      string
-	sev        int
-	flags      []string
-	mode       string
-	admits     bool
-	format     string
-	variant    int
+	entry   string
+	sev     int
+	flags   []string
+	mode    string
+	admits  bool
+	format  string
+	variant int
 }
 
 func c12Decode(i int) c12Cell {
